@@ -209,7 +209,9 @@ Definition key_format_of (fmt : option str) (cur : option keyformat) : option ke
   match fmt with
   | Some f => if str_eqb f s_uuid then Some KFUuid
               else if str_eqb f s_id62 then Some KFId62
-              else if str_eqb f s_natural_key then Some KFInformal
+              else if str_eqb f s_natural_key then
+                (* since 240b498 the format decoded from (j5.ext.v1.field).key wins *)
+                match cur with Some _ => cur | None => Some KFInformal end
               else cur
   | None => cur
   end.
@@ -403,6 +405,16 @@ Fixpoint enum_notin (opts : list enumoption) (nums : list Z) : res (list str) :=
               end
   end.
 
+(* buildEnumFieldSchema, first half: newRefPlaceholder for the enum, build it when the ref is new;
+   an existing ref that is not a linked enum schema (a message / oneof with the same split name,
+   linked or still being built) is an error (the guard of the crash fix) *)
+Definition enum_ref (st : sset) (e : enumd) : outcome sset :=
+  match lookup st (enum_key e) with
+  | Some (Linked (REnum _ _ _ _ _)) => Ok st
+  | Some _ => Err "schema name is used by an enum and by a message or oneof"
+  | None => obind (build_enum e) (fun r => Ok ((enum_key e, Linked r) :: st))
+  end.
+
 (* buildEnumFieldSchema *)
 Definition build_enum_field (st : sset) (f : field) (x : exts) : outcome (sset * fschema) :=
   match f_ty f with
@@ -411,10 +423,7 @@ Definition build_enum_field (st : sset) (f : field) (x : exts) : outcome (sset *
       | None => Err "descriptor: enum not in the set"
       | Some e =>
           let k := enum_key e in
-          obind (match lookup st k with
-                 | Some _ => Ok st
-                 | None => obind (build_enum e) (fun r => Ok ((k, Linked r) :: st))
-                 end) (fun st1 =>
+          obind (enum_ref st e) (fun st1 =>
           obind (match x_vty x with
                  | VEnum ins notins =>
                      match lookup st1 k with
@@ -486,6 +495,9 @@ Definition find_psm (m : msgd) : res (option (str * N)) :=
       else RErr "unknown PSM type suffix"
   end.
 
+Definition is_enum_entry (e : entry) : bool :=
+  match e with Linked (REnum _ _ _ _ _) => true | _ => false end.
+
 (* ---------------------------------------------------------------- one level of the recursion *)
 Section Step.
 (* the recursive call: build the root schema of a message (buildOneofSchema / buildObjectSchema) *)
@@ -507,7 +519,10 @@ Definition build_message_field (st : sset) (f : field) (x : exts) : outcome (sse
                    let k := msg_key m in
                    let wrapper := is_oneof_wrapper m in
                    obind (match lookup st k with
-                          | Some _ => Ok st
+                          (* the mirror guard (d286176): an existing ref linked to an enum schema; a nil To
+                             (a message under construction) and a linked object / oneof pass *)
+                          | Some e => if is_enum_entry e then Err "schema name is used by an enum and by a message or oneof"
+                                      else Ok st
                           | None => obind (rec ((k, Placeholder) :: st) m) (fun '(st1, r) => Ok (update st1 k (Linked r)))
                           end) (fun st2 =>
                    Ok (st2, if wrapper then FOneof k None (match x_lty x with LOneof t => Some t | _ => None end) None
